@@ -26,6 +26,24 @@ RULES = [  # (regex, replacements)  applied to code with comments stripped posit
     (r'\.x\b', ['.y']), (r'\.y\b', ['.x']), (r'\bwidth\b', ['height']), (r'\bheight\b', ['width']),
     (r'\?;', [';']), (r'\.rev\(\)', ['']), (r'\.abs\(\)', ['']),
 ]
+if os.environ.get('MUT_EXTRA') == '1':
+    # semantic mutants for plumbing code (adapters, images) that the token rules above do not reach
+    RULES += [
+        (r'(?<=[(=,] )-(?=[a-z])|(?<=\()-(?=[a-z])', ['']),            # drop a unary minus
+        (r'\+=', ['-=']), (r'(?<![<>=!\-+*/&|])-=', ['+=']),
+        (r'\.intersection\(', ['.envelope(']),
+        (r'\.translate\(', ['.translate(Point::new(1, 0) + ', '.translate(Point::zero() - ']),
+        (r'\.is_zero_sized\(\)', ['.is_zero_sized() ^ true']),
+        (r'\.nth\(', ['.nth(1 + ']),
+        (r'\.top_left\b(?!\.)', ['.top_left.swap_xy()']), (r'\.size\b(?![.(])', ['.size.swap_xy()']),
+        (r'\.is_some\(\)', ['.is_none()']), (r'\.is_none\(\)', ['.is_some()']),
+        (r'\.saturating_as\(\)', ['.saturating_as::<i32>().saturating_add(1)']),
+        (r'\bSome\(color\)', ['None']),
+        (r'\.into\(\)', ['.into().into()']) if False else (r'\bu32::MAX\b', ['0']),
+        (r'\.zip\(', ['.skip(1).zip(']), (r'\.filter\(', ['.skip(1).filter(']),
+        (r'\.take\(', ['.take(1 + ']),
+        (r'&self\.bounding_box\(\)', ['&self.bounding_box().offset(1)']),
+    ]
 
 
 SKIP_GENERICS = os.environ.get('MUT_SKIP_GENERICS') == '1'
